@@ -18,6 +18,7 @@ import (
 type Leaf struct {
 	Kind  string // field, key, map, param, unknown
 	Label string
+	Base  string // provenance of the object a field leaf was read from
 }
 
 func (l Leaf) String() string { return l.Label }
@@ -196,7 +197,7 @@ func (cfg *ChainCfg) chains1(v ssa.Value, depth int, busy map[ssa.Value]bool, bi
 				return dedupChains(out)
 			}
 		}
-		return []Chain{{Leaf{"param", "param:" + x.Name()}}}
+		return []Chain{{Leaf{"param", "param:" + x.Name(), ""}}}
 	case *ssa.Call:
 		name := ShortCallee(&x.Call)
 		recvArgs := func() (ssa.Value, []ssa.Value) {
@@ -218,7 +219,7 @@ func (cfg *ChainCfg) chains1(v ssa.Value, depth int, busy map[ssa.Value]bool, bi
 			if s, ok := ConstString(args[0]); ok {
 				key = s
 			}
-			leaf := Leaf{"key", fmt.Sprintf("key:%s=%s", key, FieldProv(args[1]))}
+			leaf := Leaf{"key", fmt.Sprintf("key:%s=%s", key, FieldProv(args[1])), ""}
 			return cross(cfg.chains(recv, depth, busy, bind), []Chain{{leaf}})
 		case cfg.IsFromMap(name):
 			label := ""
@@ -228,7 +229,7 @@ func (cfg *ChainCfg) chains1(v ssa.Value, depth int, busy map[ssa.Value]bool, bi
 			if label == "" {
 				label = FieldProv(x.Call.Args[0])
 			}
-			return []Chain{{Leaf{"map", "map:" + label}}}
+			return []Chain{{Leaf{"map", "map:" + label, ""}}}
 		case cfg.IsEmpty(name):
 			return []Chain{{}}
 		}
@@ -252,29 +253,35 @@ func (cfg *ChainCfg) chains1(v ssa.Value, depth int, busy map[ssa.Value]bool, bi
 				return dedupChains(out)
 			}
 		}
-		return []Chain{{Leaf{"unknown", "call:" + name}}}
+		return []Chain{{Leaf{"unknown", "call:" + name, ""}}}
 	case *ssa.UnOp:
 		if x.Op == token.MUL {
 			if fa, ok := x.X.(*ssa.FieldAddr); ok {
-				return []Chain{{Leaf{"field", TypeField(fa)}}}
+				if fresh, _ := FreshBase(fa.X); fresh {
+					// a field of an object built here: what was stored into it
+					if fwd, ok := ForwardLoad(x); ok {
+						return cfg.chains(fwd[0], depth, busy, bind)
+					}
+				}
+				return []Chain{{Leaf{"field", TypeField(fa), Prov(AccessPath(fa.X).Base)}}}
 			}
 			if g, ok := x.X.(*ssa.Global); ok {
-				return []Chain{{Leaf{"field", "global:" + g.Name()}}}
+				return []Chain{{Leaf{"field", "global:" + g.Name(), ""}}}
 			}
 		}
 	case *ssa.Field:
 		st := Deref(x.X.Type())
 		name := types.TypeString(st, func(*types.Package) string { return "" })
-		return []Chain{{Leaf{"field", name + "." + fieldName(x.X.Type(), x.Field)}}}
+		return []Chain{{Leaf{"field", name + "." + fieldName(x.X.Type(), x.Field), Prov(x.X)}}}
 	case *ssa.Alloc:
 		// a fresh *Variables{} literal
 		return []Chain{{}}
 	case *ssa.TypeAssert:
 		return cfg.chains(x.X, depth, busy, bind)
 	case *ssa.Extract:
-		return []Chain{{Leaf{"unknown", "result:" + Prov(x)}}}
+		return []Chain{{Leaf{"unknown", "result:" + Prov(x), ""}}}
 	}
-	return []Chain{{Leaf{"unknown", "?" + Prov(v)}}}
+	return []Chain{{Leaf{"unknown", "?" + Prov(v), ""}}}
 }
 
 // FieldProv renders provenance with type-qualified fields: a value loaded
@@ -302,10 +309,17 @@ func FieldProv(v ssa.Value) string {
 		}
 	case *ssa.Call:
 		var args []string
+		if x.Call.IsInvoke() {
+			args = append(args, FieldProv(x.Call.Value))
+		}
 		for _, a := range x.Call.Args {
 			args = append(args, FieldProv(a))
 		}
-		return lastSeg(ShortCallee(&x.Call)) + "(" + strings.Join(args, ",") + ")"
+		name := lastSeg(ShortCallee(&x.Call))
+		if x.Call.IsInvoke() {
+			name = x.Call.Method.Name()
+		}
+		return name + "(" + strings.Join(args, ",") + ")"
 	case *ssa.MakeMap:
 		// map literal: list the constant keys stored into it
 		var keys []string
